@@ -13,7 +13,7 @@ import (
 
 func init() {
 	props["C11"] = c11
-	floors["C11"] = map[string]int{"C11.R1": 9, "C11.R2": 6, "C11.R3": 6, "C11.R4": 2, "C11.R5": 1}
+	floors["C11"] = map[string]int{"C11.R1": 9, "C11.R2": 8, "C11.R3": 6, "C11.R4": 2, "C11.R5": 1}
 }
 
 // switchCases maps the constant values a function switches on (comparisons of
@@ -147,16 +147,20 @@ func c11(r *Report) {
 			}
 			r.Decide("table", "codec pair for "+name, ok, fmt.Sprintf("decoder %v, encoder %v are inverse codecs of one format", ci, co), fmt.Sprintf("decoder %v and encoder %v are not an inverse pair of the same wire format: a passed-through message changes its container", ci, co), bi.Instrs[0].Pos())
 		}
-		// the grpc-encoding header selects every constant
+		// the grpc-encoding header selects every constant (directly, or through a helper's results)
 		stored := map[int64]bool{}
+		var encStores []*ssa.Store
 		for _, inn := range instrs(ah) {
 			st, ok := inn.(*ssa.Store)
 			if !ok {
 				continue
 			}
 			if fa, ok := st.Addr.(*ssa.FieldAddr); ok && fieldObj(fa).Name() == "encoding" {
-				if k, isC := constInt(st.Val); isC {
-					stored[k] = true
+				encStores = append(encStores, st)
+				for v := range w.backSlice(st.Val, flowOpt{Calls: true}) {
+					if k, isC := constInt(v); isC && types.Identical(v.Type(), encT) {
+						stored[k] = true
+					}
 				}
 			}
 		}
@@ -167,22 +171,44 @@ func c11(r *Report) {
 		rej := false
 		for _, ret := range returns(ah) {
 			for _, v := range retVals(ret, 0) {
-				for _, l := range resolveAll(v) {
-					if errClass(l) == "call:fmt.Errorf" {
-						rej = true
-					}
+				if anyIn(w.backSlice(v, flowOpt{Calls: true}), func(x ssa.Value) bool { return isCallValue(x, "fmt.Errorf", "errors.New") }) {
+					rej = true
 				}
 			}
 		}
 		r.Decide("path", "(*M/h2/grpc.adapter).Header: an unknown grpc-encoding is rejected", rej, "error return", "an unknown encoding is silently treated as something else", ah.Pos())
+		// each direction reads its own grpc-encoding: the store must not depend on the enabled flag,
+		// which both directions of a stream share (the request headers set it before the response
+		// headers arrive at the other adapter)
+		usesEnabled := func(v ssa.Value) bool {
+			return anyIn(w.backSlice(v, flowOpt{BinOps: true, Calls: true}), func(x ssa.Value) bool {
+				if isCallValue(x, "(*M/h2/grpc.adapter).isEnabled") {
+					return true
+				}
+				if fa, ok := x.(*ssa.FieldAddr); ok && fieldObj(fa).Name() == "enabled" {
+					return true
+				}
+				return false
+			})
+		}
+		indep := len(encStores) > 0
+		for _, st := range encStores {
+			for _, ce := range ctrlEdges(st.Block()) {
+				if usesEnabled(ce.If.Cond) {
+					indep = false
+				}
+			}
+		}
+		r.Decide("path", "(*M/h2/grpc.adapter).Header: grpc-encoding is read whether or not the stream was already marked gRPC", indep, "the encoding store is not control dependent on the shared enabled flag", "the encoding is only read while the shared enabled flag is still unset: the direction whose headers arrive second (the response) keeps Identity and its processor is shown compressed bytes", ah.Pos())
 	})
 
 	r.Guard("C11.R2", "the 5-byte message prefix is read and written the same way", func() {
-		rd := plainCalls(ad, "encoding/binary.Read")
-		wr := plainCalls(em, "encoding/binary.Write")
-		if len(rd) != 1 || len(wr) != 1 {
-			r.Fail("table", "length prefix codec", fmt.Sprintf("found %d binary.Read and %d binary.Write calls, want 1 and 1", len(rd), len(wr)), nil, ad.Pos())
-			return
+		// The prefix codec, in either of the two idioms: binary.Read / binary.Write with an explicit
+		// byte order, or the ByteOrder methods (Uint32 / PutUint32 / AppendUint32).
+		type prefixIO struct {
+			order, width string
+			at           ssa.Instruction
+			val          ssa.Value // writer: the value encoded; reader form B: the call's slice argument
 		}
 		order := func(v ssa.Value) string {
 			for x := range w.backSlice(v, flowOpt{}) {
@@ -192,14 +218,64 @@ func c11(r *Report) {
 			}
 			return "?"
 		}
-		ro, wo := order(rd[0].Call.Args[1]), order(wr[0].Call.Args[1])
-		r.Decide("table", "length prefix byte order agrees", ro == wo && ro == "encoding/binary.BigEndian", "both sides use "+ro, "reader uses "+ro+", writer uses "+wo, rd[0].Pos())
-		// width: uint32 on both sides
-		rt := unwrapIface(rd[0].Call.Args[2]).Type().String()
-		wt := unwrapIface(wr[0].Call.Args[2]).Type().String()
-		r.Decide("table", "length prefix width agrees", rt == "*uint32" && wt == "uint32", "uint32 on both sides", "reader decodes into "+rt+", writer encodes "+wt, rd[0].Pos())
+		endianOf := func(c *ssa.Call) (string, string, bool) {
+			fn := calleeObj(c)
+			if fn == nil {
+				return "", "", false
+			}
+			recv := fn.Type().(*types.Signature).Recv()
+			if recv == nil {
+				return "", "", false
+			}
+			switch recv.Type().String() {
+			case "encoding/binary.bigEndian":
+				return "encoding/binary.BigEndian", fn.Name(), true
+			case "encoding/binary.littleEndian":
+				return "encoding/binary.LittleEndian", fn.Name(), true
+			}
+			return "", "", false
+		}
+		var rds, wrs []prefixIO
+		for _, c := range plainCalls(ad, "encoding/binary.Read") {
+			if fa, ok := unwrapIface(c.Call.Args[2]).(*ssa.FieldAddr); ok && fieldObj(fa).Name() == "length" {
+				rds = append(rds, prefixIO{order(c.Call.Args[1]), strings.TrimPrefix(fa.Type().String(), "*"), c, nil})
+			}
+		}
+		for _, inn := range instrs(ad) {
+			st, ok := inn.(*ssa.Store)
+			if !ok {
+				continue
+			}
+			if fa, ok := st.Addr.(*ssa.FieldAddr); !ok || fieldObj(fa).Name() != "length" {
+				continue
+			}
+			for v := range w.backSlice(st.Val, flowOpt{}) {
+				if c, isC := v.(*ssa.Call); isC {
+					if o, m, ok := endianOf(c); ok && strings.HasPrefix(m, "Uint") {
+						rds = append(rds, prefixIO{o, strings.ToLower(m), st, c.Call.Args[len(c.Call.Args)-1]})
+					}
+				}
+			}
+		}
+		for _, c := range plainCalls(em, "encoding/binary.Write") {
+			wrs = append(wrs, prefixIO{order(c.Call.Args[1]), unwrapIface(c.Call.Args[2]).Type().String(), c, unwrapIface(c.Call.Args[2])})
+		}
+		for _, ci := range calls(em) {
+			if c, isC := ci.(*ssa.Call); isC {
+				if o, m, ok := endianOf(c); ok && (strings.HasPrefix(m, "PutUint") || strings.HasPrefix(m, "AppendUint")) {
+					wrs = append(wrs, prefixIO{o, strings.ToLower(strings.TrimPrefix(strings.TrimPrefix(m, "Put"), "Append")), c, c.Call.Args[len(c.Call.Args)-1]})
+				}
+			}
+		}
+		if len(rds) != 1 || len(wrs) != 1 {
+			r.Fail("table", "length prefix codec", fmt.Sprintf("found %d decodings of the length prefix in the adapter and %d encodings in the emitter, want 1 and 1", len(rds), len(wrs)), nil, ad.Pos())
+			return
+		}
+		rd, wr := rds[0], wrs[0]
+		r.Decide("table", "length prefix byte order agrees", rd.order == wr.order && rd.order == "encoding/binary.BigEndian", "both sides use "+rd.order, "reader uses "+rd.order+", writer uses "+wr.order, rd.at.Pos())
+		r.Decide("table", "length prefix width agrees", rd.width == "uint32" && wr.width == "uint32", "uint32 on both sides", "reader decodes "+rd.width+", writer encodes "+wr.width, rd.at.Pos())
 		// the length written is the length of the payload written
-		okLen := anyIn(w.backSlice(wr[0].Call.Args[2], flowOpt{}), func(v ssa.Value) bool {
+		okLen := anyIn(w.backSlice(wr.val, flowOpt{}), func(v ssa.Value) bool {
 			c, ok := v.(*ssa.Call)
 			if !ok {
 				return false
@@ -216,7 +292,7 @@ func c11(r *Report) {
 			}
 			return false
 		})
-		r.Decide("flow", "the length written is the length of the payload that follows", okLen, "len(data) of the slice written next", "the prefix does not describe the payload written after it", wr[0].Pos())
+		r.Decide("flow", "the length written is the length of the payload that follows", okLen, "len(data) of the slice written next", "the prefix does not describe the payload written after it", wr.at.Pos())
 		// compressed flag: written 1 exactly when the adapter read a non-zero flag
 		okFlag := len(plainCalls(em, "(*bytes.Buffer).WriteByte")) > 0
 		isCompressedLoad := func(v ssa.Value) bool {
@@ -289,22 +365,115 @@ func c11(r *Report) {
 		}
 		r.Decide("path", "a message is flagged compressed only after passing the codec switch", okCodec, "every path to the flag value 1 passes the switch over adapter.encoding", "some messages (e.g. empty ones) skip the compressor but are still flagged compressed: the peer cannot decode them", em.Pos())
 		r.Decide("path", "the compressed flag written is the flag read", okFlag, "WriteByte(1) on the adapter.compressed edge, WriteByte(0) otherwise", "the compressed flag of a re-emitted message does not follow the flag that was read", em.Pos())
-		// the flag read: compressed = byte > 0, stored before the length is read
+		// the flag read: compressed = <first prefix byte> > 0
 		okRead := false
 		for _, inn := range instrs(ad) {
 			st, ok := inn.(*ssa.Store)
 			if !ok {
 				continue
 			}
-			if fa, ok := st.Addr.(*ssa.FieldAddr); ok && fieldObj(fa).Name() == "compressed" {
-				if anyIn(w.backSlice(st.Val, flowOpt{BinOps: true}), func(v ssa.Value) bool {
-					return isCallValue(v, "(*bytes.Buffer).ReadByte") || isExtractOfCall(v, "(*bytes.Buffer).ReadByte")
-				}) {
-					okRead = G(ad).Before(st, rd[0]) || st.Block() == rd[0].Block()
+			fa, ok := st.Addr.(*ssa.FieldAddr)
+			if !ok || fieldObj(fa).Name() != "compressed" {
+				continue
+			}
+			sl := w.backSlice(st.Val, flowOpt{BinOps: true})
+			// (a) a ReadByte that precedes the decoding of the length
+			if anyIn(sl, func(v ssa.Value) bool {
+				return isCallValue(v, "(*bytes.Buffer).ReadByte") || isExtractOfCall(v, "(*bytes.Buffer).ReadByte")
+			}) {
+				okRead = G(ad).Before(st, rd.at) || st.Block() == rd.at.Block()
+			}
+			// (b) element 0 of the slice whose tail [1:] is decoded as the length
+			if tail, isSl := rd.val.(*ssa.Slice); isSl && tail.Low != nil {
+				if lo, isC := constInt(tail.Low); isC && lo == 1 {
+					if anyIn(sl, func(v ssa.Value) bool {
+						ia, ok := v.(*ssa.IndexAddr)
+						if !ok || ia.X != tail.X {
+							return false
+						}
+						k, isC := constInt(ia.Index)
+						return isC && k == 0
+					}) {
+						okRead = true
+					}
 				}
 			}
 		}
-		r.Decide("flow", "the compressed flag is the first prefix byte", okRead, "ReadByte result > 0 stored before the length is decoded", "the flag byte is not read first / not stored", ad.Pos())
+		r.Decide("flow", "the compressed flag is the first prefix byte", okRead, "the first byte (> 0) is stored as the flag, the length is decoded from the bytes after it", "the flag byte is not read first / not stored", ad.Pos())
+
+		// Bytes leave the reassembly buffer only when enough of them are there: a prefix or payload
+		// cut by a DATA frame boundary stays buffered until the rest arrives.
+		isBuf := func(v ssa.Value) bool {
+			fa, ok := unwrapIface(v).(*ssa.FieldAddr)
+			return ok && fieldObj(fa).Name() == "buffer" && fa.X == ssa.Value(ad.Params[0])
+		}
+		consuming := map[string]bool{"Next": true, "Read": true, "ReadByte": true, "ReadRune": true, "ReadBytes": true, "ReadString": true, "WriteTo": true, "Truncate": true, "Reset": true}
+		nCons := 0
+		for _, ci := range calls(ad) {
+			c, isC := ci.(*ssa.Call)
+			if !isC {
+				continue
+			}
+			fn := calleeObj(c)
+			if fn == nil {
+				continue
+			}
+			takes := false
+			if recv := fn.Type().(*types.Signature).Recv(); recv != nil && recv.Type().String() == "*bytes.Buffer" {
+				takes = consuming[fn.Name()] && len(c.Call.Args) > 0 && isBuf(c.Call.Args[0])
+			} else {
+				// the buffer handed to a reader-consuming function (binary.Read, io.ReadFull, ...)
+				for _, a := range c.Call.Args {
+					if _, isIface := a.Type().Underlying().(*types.Interface); isIface && isBuf(a) {
+						takes = true
+					}
+				}
+			}
+			if !takes {
+				continue
+			}
+			nCons++
+			guard := ""
+			for _, ce := range ctrlEdges(c.Block()) {
+				b, isB := ce.If.Cond.(*ssa.BinOp)
+				if !isB {
+					continue
+				}
+				isLen := func(v ssa.Value) bool {
+					lc, ok := unwrapConv(v).(*ssa.Call)
+					return ok && calleeName(lc) == "(*bytes.Buffer).Len" && isBuf(lc.Call.Args[0])
+				}
+				var other ssa.Value
+				enough := false
+				switch {
+				case isLen(b.X):
+					other = b.Y
+					enough = (b.Op == token.LSS && !ce.Taken) || (b.Op == token.GEQ && ce.Taken)
+				case isLen(b.Y):
+					other = b.X
+					enough = (b.Op == token.GTR && !ce.Taken) || (b.Op == token.LEQ && ce.Taken)
+				}
+				if !enough {
+					continue
+				}
+				if k, isK := constInt(other); isK {
+					if k == 5 { // 1 flag byte + 4 length bytes (width checked above)
+						guard = "Len() >= 5"
+					}
+				} else {
+					guard = "Len() >= " + short(pathOf(unwrapConv(other)))
+				}
+			}
+			key := fmt.Sprintf("%s takes bytes from the buffer only when enough are buffered", site(ad, c))
+			if guard != "" {
+				r.Hold("path", key, "dominated by "+guard, c.Pos())
+			} else {
+				r.Fail("path", key, "bytes are taken out of the reassembly buffer without a preceding test that the whole prefix (5 bytes) or payload is buffered: a prefix or message split across DATA frames is consumed in part and lost", nil, c.Pos())
+			}
+		}
+		if nCons == 0 {
+			r.Undecided("(*M/h2/grpc.adapter).Data: consumers of the reassembly buffer", "UNRESOLVED: no call takes bytes out of adapter.buffer")
+		}
 	})
 
 	r.Guard("C11.R3", "streams that are not gRPC, and frames that are not DATA, pass through with their own arguments", func() {
